@@ -233,8 +233,22 @@ def run_unit(unit, seed=0, canary=True, rlimit=None):
         elif bad:
             u.undecided.append('vacuity: `ensures false` verified for ' + ', '.join(bad))
     u.obligations = u.all_obligations()
+    # loop-shape guard: loop contracts are attached by loop ordinal; when the number of loops of a function differs from the pinned tree
+    # (a loop added, removed, or an iterator chain lowered into / out of a loop) the ordinals cannot be trusted any more: the function is
+    # UNDECIDED (its failures are not reported as violations; the bounded drivers decide), never an alarm by itself
+    base_loops = load_json(os.path.join(ROOT, 'baseline', 'loops.json'), {}).get(unit, {})
+    u.loop_changed = set()
+    for n in g.order:
+        fi = g.fns[n]
+        if fi.is_fn and n in base_loops and base_loops[n] != getattr(fi, 'n_loops', 0):
+            u.loop_changed.add(n)
+            u.undecided.append(f'{n}: loop structure changed ({base_loops[n]} loop(s) on the pinned tree, {fi.n_loops} now): loop contracts are attached by ordinal and cannot be trusted')
     u.wall_s = time.time() - t0
     return u
+
+
+def loops_of(u):
+    return {n: getattr(u.g.fns[n], 'n_loops', 0) for n in u.g.order if u.g.fns[n].is_fn} if u.g is not None else {}
 
 
 # ------------------------------------------------------------------------------------------------
@@ -284,6 +298,8 @@ def classify(unit_runs, prop, baseline, known, all_known=None):
         for o in obs:
             out['obligations'].append(o)
             fkey = o.id.rsplit('::', 1)[0]
+            if o.id in u.failed and fkey.split('::', 1)[-1] in getattr(u, 'loop_changed', ()):
+                continue      # already reported as UNDECIDED (loop structure changed)
             if o.id in u.failed:
                 diags = u.failed[o.id]
                 kn = [k for k in known if k['obligation'] == o.id and k.get('status', 'open') == 'open']
@@ -314,7 +330,7 @@ def classify(unit_runs, prop, baseline, known, all_known=None):
         # tagged with another property would leave this property's check silent (found with seed C11-update-data-last-scope-only).
         direct = set(o.id.rsplit('::', 1)[0] for o, _, _ in out['violations']) | set(o.id.rsplit('::', 1)[0] for o, _, _ in out['known'])
         for fkey, os_ in collateral.items():
-            if fkey in direct:
+            if fkey in direct or fkey.split('::', 1)[-1] in getattr(u, 'loop_changed', ()):
                 continue
             why = [(oid, d) for oid, ds in u.failed.items() if oid.rsplit('::', 1)[0] == fkey for d in ds]
             d0 = dict(why[0][1]) if why else {'message': 'function not verified', 'site': None}
